@@ -233,6 +233,7 @@ def const_items(M, ty, p, off, items):
         if k in ('name', 'qname') and v[0] == '@':
             items.append(('p', off, v, 0)); return
         if v == 'getelementptr':
+            while p.peek()[1] in ('inbounds', 'nuw', 'nusw'): p.next()
             p.expect('(')
             while p.peek()[1] in ('inbounds', 'nuw', 'nusw'): p.next()
             bt = p.ty(); p.expect(','); p.ty(); base = p.next()[1]
@@ -599,7 +600,10 @@ class FGen:
         return t, self.operand(p, t)
 
     def gep(self, p, paren=False):
-        if paren: p.expect('(')
+        if paren:
+            # constant expression: the flags come before the parenthesis (`getelementptr inbounds nuw (i8, ptr @g, i64 1)`)
+            while p.peek()[1] in ('inbounds', 'nuw', 'nusw'): p.next()
+            p.expect('(')
         while p.peek()[1] in ('inbounds', 'nuw', 'nusw', 'inrange'):
             p.next()
             if p.peek()[1] == '(' and not paren: skip_paren(p)
